@@ -9,6 +9,9 @@ func propC18(c *Ctx, r *Report) {
 		"size/offset arithmetic of the container, abbreviation widths, operand indices, signature/PSV consistency, hash correctness")
 	c.runBalance(r, "pairing.bitcode", bitcodeBracket)
 	r.floor("pairing.EnterBlock/ExitBlock", 8)
+	r.Clauses = append(r.Clauses, "sibling renumbering (E3): the functions of the DXIL emitter that rewrite emitter-local value ids to final ids in module.Instruction records (entry-point and helper-function finalisers, discovered as functions writing >= 3 common fields of Instruction / PhiIncoming) write the same set of fields - a field only one of them renumbers keeps stale ids on the other path, i.e. operands that refer to the wrong value")
+	c.runSiblingWriters(r, "siblings.fields", "dxil/internal/emit", []string{"Instruction", "PhiIncoming"}, 3, nil)
+	r.floor("siblings.dxil/internal/emit", 1)
 	r.Clauses = append(r.Clauses, "determinism (E6): every `range` over a Go map in the DXIL packages is order-insensitive or argued")
 	c.runMapOrder(r, "maporder", "dxil.mapranges", inPkgs("dxil"), mapOrderExceptions)
 	r.floor("dxil.mapranges", 20)
